@@ -863,6 +863,124 @@ def class_extra_stream(rep: Report):
                 rep.violation(v[0], v[1], {"kind": "class-extra", "extra": kind, "name": name, "seed": seed})
                 break
 
+# ------------------------------------------------------------------ kernel stream (generated terms vs the real kernels)
+# (T) harness/translators/kernels.py translates the binned curve kernels it covers (family "C06") from their source into terms of
+# TE/Model/TExpr.lean (TE/Gen/KernelsBinned.lean, regenerated here); TE/Props/C06_Kernels.lean proves the generated terms equal to
+# the models of TE/Model/Binned.lean; this stream runs the generated terms against the REAL private functions.
+
+KERNEL_MODULES = {"classification/binned_precision_recall_curve": "torcheval.metrics.functional.classification.binned_precision_recall_curve",
+                  "classification/binned_auroc": "torcheval.metrics.functional.classification.binned_auroc",
+                  "classification/binned_auprc": "torcheval.metrics.functional.classification.binned_auprc",
+                  "tensor_utils": "torcheval.metrics.functional.tensor_utils"}
+
+
+def translate(rep: Report):
+    """(T) regenerate lean/TE/Gen/KernelsBinned.lean from the kernels' source (TE.Props.C06_Kernels is proved about it)"""
+    from ..translators import kernels
+    from ..common import LEAN
+    rows = kernels.generate(rep, family="C06")
+    props = (LEAN / "TE" / "Props" / "C06_Kernels.lean").read_text()
+    for r in rows:
+        if r["term"] is not None and f"Gen.Binned.k_{r['id']}" not in props.replace(f"Gen.Binned.k_{r['id']}_", ""):
+            rep.broke(f"kernels:{r['id']}", f"kernel {r['func']} is translated but no theorem of TE/Props/C06_Kernels.lean is about Gen.Binned.k_{r['id']}", {})
+
+
+def kernel_stream(rep: Report, rng: Rng):
+    """the GENERATED term of every translated kernel (request `gen.<kernel>`) against the REAL private function on the same
+    arguments.  A disagreement is a broken correspondence between the source and its translation (`kernels:<name>`), never a
+    violation by itself."""
+    import importlib
+    from ..common import enc_tensor
+    from ..translators import kernels
+    rows = {r["id"]: r for r in kernels.facts(family="C06")}
+    for r in rows.values():
+        if "fn" not in r:
+            try:
+                r["fn"] = getattr(importlib.import_module(KERNEL_MODULES[r["module"]]), r["func"], None)
+            except Exception:  # noqa: BLE001
+                r["fn"] = None
+
+    def usable(kid):
+        return rows.get(kid, {}).get("term") is not None and rows[kid].get("fn") is not None
+    upd = rows.get("binned_update", {}).get("fn")
+    calls = []
+    cases = []
+    thrs = [list(t) for t in ALL_THR] + [[]]
+    for n in range(0, 3):
+        for xs in itertools.product(G5, repeat=n):
+            for ys in itertools.product([0, 1], repeat=n):
+                cases.append((list(xs), list(ys), rng.choice(thrs)))
+    for _ in range(1500 if rep.tier == "thorough" else 300):
+        n = rng.choice([3, 4, 5, 8, 17])
+        thr = rng.choice(thrs) if rng.random() < 0.7 else thr_tensor(rng.choice(INT_THR)).tolist()
+        cases.append((rng.grid(n, GRID_X if rng.random() < 0.4 else G5), labels01(rng, n), thr))
+    for xs, ys, thr in cases:
+        x, t, th = ft(xs), it(ys), torch.tensor(thr, dtype=torch.float32)
+        if usable("binned_update"):
+            calls.append(("binned_update", {"input": x, "target": t, "threshold": th}, call_real(rows["binned_update"]["fn"], x, t, th)))
+        if usable("binary_binned_precision_recall_curve_update"):
+            # (its input check — 1-d, equal shapes — passes on every case of this stream; the check itself belongs to C18)
+            calls.append(("binary_binned_precision_recall_curve_update", {"input": x, "target": t, "threshold": th},
+                          call_real(rows["binary_binned_precision_recall_curve_update"]["fn"], x, t, th)))
+        if usable("binary_binned_precision_recall_curve_compute"):
+            # on what the REAL `_update` returned, and on free count vectors (0/0 precision -> 1, 0/0 recall -> NaN)
+            got = call_real(upd, x, t, th) if upd is not None else ("err",)
+            if got[0] == "ok":
+                tp, fp, fn_ = got[1]
+            else:
+                k = len(thr)
+                tp, fp, fn_ = it([rng.choice([0, 0, 1, 2, 5]) for _ in range(k)]), it([rng.choice([0, 0, 1, 3]) for _ in range(k)]), \
+                    it([rng.choice([0, 0, 1, 4]) for _ in range(k)])
+            calls.append(("binary_binned_precision_recall_curve_compute", {"num_tp": tp, "num_fp": fp, "num_fn": fn_, "threshold": th},
+                          call_real(rows["binary_binned_precision_recall_curve_compute"]["fn"], tp, fp, fn_, th)))
+            if rng.random() < 0.3:
+                k = len(thr)
+                tp, fp, fn_ = it([rng.choice([0, 0, 1, 2, 5]) for _ in range(k)]), it([rng.choice([0, 0, 1, 3]) for _ in range(k)]), \
+                    it([rng.choice([0, 0, 1, 4]) for _ in range(k)])
+                calls.append(("binary_binned_precision_recall_curve_compute", {"num_tp": tp, "num_fp": fp, "num_fn": fn_, "threshold": th},
+                              call_real(rows["binary_binned_precision_recall_curve_compute"]["fn"], tp, fp, fn_, th)))
+        if usable("binary_binned_auprc_compute") and len(thr) > 0:
+            # one task (no positive at all: recall 0/0 -> NaN -> 0 by nan_to_num)
+            calls.append(("binary_binned_auprc_compute", {"input": x, "target": t, "num_tasks": 1, "threshold": th},
+                          call_real(rows["binary_binned_auprc_compute"]["fn"], x, t, 1, th)))
+    if usable("binary_binned_auprc_compute"):
+        # several tasks: (num_tasks, n) inputs, one value per row (the Python-level loop of the kernel), also one row
+        for _ in range(600 if rep.tier == "thorough" else 150):
+            rows_, n = rng.choice([1, 2, 2, 3]), rng.choice([1, 2, 3, 5, 9])
+            thr = rng.choice([list(t_) for t_ in ALL_THR])
+            x = ft([v for _r in range(rows_) for v in rng.grid(n, GRID_X if rng.random() < 0.4 else G5)], shape=(rows_, n))
+            t = it([v for _r in range(rows_) for v in labels01(rng, n)], shape=(rows_, n))
+            th = torch.tensor(thr, dtype=torch.float32)
+            calls.append(("binary_binned_auprc_compute", {"input": x, "target": t, "num_tasks": rows_, "threshold": th},
+                          call_real(rows["binary_binned_auprc_compute"]["fn"], x, t, rows_, th)))
+    if usable("riemann_integral"):
+        grid = [Fr(j, 8) for j in range(0, 9)]
+        for _ in range(1000 if rep.tier == "thorough" else 200):
+            n = rng.choice([0, 1, 2, 3, 5, 9])
+            xs = sorted(rng.grid(n, grid), reverse=rng.random() < 0.8) if rng.random() < 0.7 else rng.grid(n, grid)
+            x, y = ft(xs), ft(rng.grid(n, grid))
+            calls.append(("riemann_integral", {"x": x, "y": y}, call_real(rows["riemann_integral"]["fn"], x, y)))
+    lines = [f"fn gen.{kid} " + " ".join(f"{k}={enc_tensor(v) if isinstance(v, torch.Tensor) else 'i.' + str(v)}" for k, v in a.items())
+             for kid, a, _ in calls]
+    outs = run_driver(lines)
+    nbad = {}
+    for (kid, a, real), line, o in zip(calls, lines, outs):
+        rep.count(f"kernel-stream:{kid}")
+        if real[0] == "err":
+            rep.count(f"kernel-stream:err:{real[1]}")
+        rep.case(nontrivial_key=("kernel", line), sample={"request": line[:300], "model": o[:200]} if rep.dist.get(f"kernel-stream:{kid}") == 1 else None)
+        rep.traces += 1
+        msg = outcomes_agree(real, dec_out(o), strict_kind=True)
+        if msg is None:
+            continue
+        nbad[kid] = nbad.get(kid, 0) + 1
+        if nbad[kid] <= 3:
+            rep.broke(f"kernels:{kid}", f"the term generated from the source of {rows[kid]['module']}.{rows[kid]['func']} and the real function disagree ({msg}) "
+                      f"on {line[:400]}", {"kind": "kernel", "kernel": kid, "request": line, "generated": o,
+                                           "real": real[1] if real[0] == "err" else [t_.tolist() for t_ in real[1]]})
+    rep.streams["kernels"] = {"cases": len(calls), "disagreements": sum(nbad.values()), "untranslated": [k for k, r in rows.items() if r["term"] is None]}
+
+
 def run(rep: Report):
     rng = Rng(rep.seed * 1000003 + 6)
     from .. import opscheck; opscheck.check_ops(rep, ["binned"])
@@ -875,6 +993,7 @@ def run(rep: Report):
     check_spec_oracles(rep, rng, 1500 if rep.tier == "thorough" else 250)
     class_programs(rep, rng, 1200 if rep.tier == "thorough" else 160)
     class_extra_stream(rep)
+    kernel_stream(rep, Rng(rep.seed * 1000003 + 66666))
 
 
 def search(rep: Report):
